@@ -1,3 +1,5 @@
+use std::collections::HashSet;
+
 use crate::{DiagnosticCode, SemanticModel};
 
 use super::{Checker, DiagnosticContext};
@@ -19,7 +21,13 @@ impl Checker for AnalyzeErrorChecker {
             return;
         };
         let errors = diagnostics.to_vec();
+        // the analyzers can record the identical error (same range, same message) more than once
+        let mut reported = HashSet::new();
         for error in errors {
+            if !reported.insert((error.kind, error.range, error.message.clone())) {
+                continue;
+            }
+
             context.add_diagnostic(error.kind, error.range, error.message, None);
         }
     }
